@@ -13,8 +13,19 @@
                  "error making WebRTC connection"                        LPcFail
                  "error sending answer" (pc.Close(); tokens.ret())       LAnswerFail; LGiveUp; LClose
                  select timeout (pc.Close(); tokens.ret())               LSelectTimeout; LGiveUp; LClose
-     datachannelHandler  defer tokens.ret() (relay unreachable, normal end, shutdown)   LH i HEnd
+     datachannelHandler  defer tokens.ret():
+                 "error dialing relay" - the relay answers the dial with a failure          LH i HDialFail
+                 "error dialing relay" - the relay does not answer at all and the 45 s
+                                         HandshakeTimeout of websocket.DefaultDialer fires   LH i HDialTimer
+                 copyLoop returns (normal end, shutdown)                                     LH i HEnd
    each followed by the second half of ret (channel receive): LMainRecv / LH i HRecv.
+
+   The relay dial.  datachannelHandler first dials the relay (websocket.DefaultDialer.Dial): handler stage HDial.
+   What the relay does is the environment's choice: it completes the WebSocket handshake (LH i HDialOk, the handler
+   goes on to copyLoop: HRun), it fails it (refuses the connection, resets it, closes it, answers with an HTTP
+   error: LH i HDialFail), or it accepts the connection and never answers - then NOTHING comes from the relay, and
+   the only step left to the handler is its own timer, LH i HDialTimer, which is always enabled at HDial (like the
+   20 s timer of the select in runSession: LSelectTimeout).  The dial does not watch the shutdown channel.
 
    The data channel of the session under negotiation can open (OnDataChannel: close(dataChan);
    go handler) from the moment the answer is handed to the broker until pc.Close() has been called:
@@ -40,7 +51,7 @@ Local Open Scope nat_scope.
 
 Inductive version := V0 | V1.
 Inductive owner := ONone | OMain | OHandler.
-Inductive hpc := HNone | HStart | HRun | HRetRecv | HDone.
+Inductive hpc := HNone | HStart | HDial | HRun | HRetRecv | HDone.
 Inductive mpc := MTop | MGetSend | MPoll | MRelay | MMakePC | MAnswer | MSelect | MGiveUp | MClosing
                | MRetRecv | MStopped.
 
@@ -70,7 +81,7 @@ Fixpoint sum (l : list nat) : nat := match l with [] => 0 | x :: l' => x + sum l
 (* slots in use = sessions for which get completed and ret has not been called *)
 Definition in_use (st : state) : nat := sum (map holds (sessions st)).
 
-Inductive hact := HClaim | HEnd | HRecv.
+Inductive hact := HClaim | HDialOk | HDialFail | HDialTimer | HEnd | HRecv.
 
 Inductive label :=
 | LGet | LGetSend | LStop
@@ -116,8 +127,11 @@ Definition hstep (v : version) (a : hact) (t : tokens) (c : sess) : option (sess
   | HClaim, HStart =>
       match v, own c with
       | V1, OMain => Some (mkSess HDone (dc c) (own c) (mrel c) (hrel c), t)
-      | _, _ => Some (mkSess HRun (dc c) OHandler (mrel c) (hrel c), t)
+      | _, _ => Some (mkSess HDial (dc c) OHandler (mrel c) (hrel c), t)
       end
+  | HDialOk, HDial => Some (mkSess HRun (dc c) (own c) (mrel c) (hrel c), t)
+  | HDialFail, HDial => Some (mkSess HRetRecv (dc c) (own c) (mrel c) true, tok_dec t)
+  | HDialTimer, HDial => Some (mkSess HRetRecv (dc c) (own c) (mrel c) true, tok_dec t)
   | HEnd, HRun => Some (mkSess HRetRecv (dc c) (own c) (mrel c) true, tok_dec t)
   | HRecv, HRetRecv =>
       if recv_ready t then Some (mkSess HDone (dc c) (own c) (mrel c) (hrel c), tok_recv t) else None
@@ -206,9 +220,9 @@ Definition negotiating (m : mpc) : bool :=
   match m with MPoll | MRelay | MMakePC | MAnswer | MSelect | MGiveUp | MClosing => true | _ => false end.
 
 (* clients being negotiated with by runSession or served by a handler: a background session counts
-   while its handler serves (HRun); the current session counts while its handler serves, or while
+   while its handler serves (HDial: dialling the relay for it, HRun: copying); the current session counts while its handler serves, or while
    runSession is in a negotiation stage and no handler has taken the session over yet *)
-Definition serving (c : sess) : bool := match hp c with HRun => true | _ => false end.
+Definition serving (c : sess) : bool := match hp c with HDial | HRun => true | _ => false end.
 Definition handler_pending (c : sess) : bool := match hp c with HNone | HStart => true | _ => false end.
 Definition n_active (st : state) : nat :=
   sum (map (fun c => if serving c then 1 else 0) (bg st)) +
